@@ -49,6 +49,11 @@ struct Shared {
     /// None: poll_flush is always ready (the read-only / write-only families)
     fscript: Option<VecDeque<FEv>>,
     written: Vec<u8>,
+    /// length of `written` at the last successful poll_flush
+    flushed: usize,
+    /// bytes of a new frame were handed to the socket while an earlier, completely written frame had not been
+    /// flushed (only tracked when a flush script is present)
+    unflushed_frame: bool,
     starved: bool,
     read_calls: usize,
     write_calls: usize,
@@ -90,6 +95,19 @@ impl AsyncRead for Sock {
     }
 }
 
+/// the bytes written so far end exactly at the end of a length-prefixed frame
+fn at_frame_end(w: &[u8]) -> bool {
+    let mut i = 0usize;
+    while i + 2 <= w.len() {
+        let l = u16::from_be_bytes([w[i], w[i + 1]]) as usize;
+        i += 2 + l;
+        if i == w.len() {
+            return true;
+        }
+    }
+    false
+}
+
 impl Sock {
     fn write_some(&self, offered: &[u8]) -> Poll<io::Result<usize>> {
         let mut s = self.0.lock().unwrap();
@@ -103,6 +121,9 @@ impl Sock {
             Some(WEv::Err) => Poll::Ready(Err(io::Error::new(io::ErrorKind::ConnectionReset, "scripted-w"))),
             Some(WEv::Acc(n)) => {
                 let n = n.min(offered.len());
+                if n > 0 && s.fscript.is_some() && s.flushed < s.written.len() && at_frame_end(&s.written) {
+                    s.unflushed_frame = true;
+                }
                 s.written.extend_from_slice(&offered[..n]);
                 Poll::Ready(Ok(n))
             }
@@ -133,7 +154,10 @@ impl AsyncWrite for Sock {
                 s.starved = true;
                 Poll::Pending
             }
-            Some(FEv::Ok) => Poll::Ready(Ok(())),
+            Some(FEv::Ok) => {
+                s.flushed = s.written.len();
+                Poll::Ready(Ok(()))
+            }
             Some(FEv::Pend) => Poll::Pending,
             Some(FEv::Err) => Poll::Ready(Err(io::Error::new(io::ErrorKind::ConnectionAborted, "scripted-f"))),
         }
@@ -153,6 +177,7 @@ struct Obs {
     fin: u8,
     written: Vec<u8>,
     polls: usize,
+    unflushed_frame: bool,
 }
 
 fn run_impl(msgs_out: &[Vec<u8>], rscript: &[REv], wscript: &[WEv]) -> Result<Obs, String> {
@@ -204,7 +229,8 @@ fn run_impl(msgs_out: &[Vec<u8>], rscript: &[REv], wscript: &[WEv]) -> Result<Ob
             }
         }
         let written = shared.lock().unwrap().written.clone();
-        Obs { items, fin, written, polls }
+        let unflushed_frame = shared.lock().unwrap().unflushed_frame;
+        Obs { items, fin, written, polls, unflushed_frame }
     })
 }
 
@@ -620,7 +646,8 @@ fn run_comb(arr: &[Batch], ws: &[WEv], fs: &[FEv], rs: &[REv], client: bool) -> 
             }
         }
         let written = shared.lock().unwrap().written.clone();
-        Obs { items, fin, written, polls }
+        let unflushed_frame = shared.lock().unwrap().unflushed_frame;
+        Obs { items, fin, written, polls, unflushed_frame }
     })
 }
 
@@ -783,6 +810,8 @@ fn comb_case(seed: u64, index: u64, r: &mut Rng, client: bool) -> CaseOut {
                 fail = Some(format!("clean end but only {} of {} inbound messages delivered", got_msgs.len(), in_msgs.len()));
             } else if o.fin == 0 && in_cut && in_stream.len() != in_msgs.iter().take(got_msgs.len()).map(|m| m.len() + 2).sum::<usize>() {
                 fail = Some("clean end inside a frame".to_string());
+            } else if o.unflushed_frame {
+                fail = Some(format!("a new frame was handed to the socket before the previous, completely written frame had been flushed: {otext}"));
             } else if n_mm > n_mismatch {
                 fail = Some(format!("{n_mm} mismatched-peer errors for {n_mismatch} mismatched messages"));
             }
